@@ -132,6 +132,7 @@ package fun
 
 //@ func (WorkerGroupConf).CanContinueOnError
 //@   props C03
+//@   modifies calls(o.ErrorHandler)
 //@   requires o.ErrorHandler != nil
 //@   ensures recorded: reportable(o, err) ==> calls(o.ErrorHandler) == old(calls(o.ErrorHandler)) + 1
 //@   ensures notrecorded: !reportable(o, err) ==> calls(o.ErrorHandler) == old(calls(o.ErrorHandler))
